@@ -177,6 +177,18 @@ PROPS = {
         "level_note": "trusted: Series.tla (classical allotment table transcribed from the month list, not from the packed digit string), TLC, harness logging",
         "technique": "TLA+ series sub-machines checked with TLC + trace validation of day walks",
     },
+    "C16": {
+        "title": "child limit and fortunes follow from birth instant, gender and the next Jie",
+        "mc": {"quick": [{"module": "MC_Fortune", "cfg": "MC_Fortune.cfg", "workers": 4}]},
+        "rule": "1,500 (quick) / 60,000 (thorough) seeded birth instants 0002..9987 x gender (a sixth within 3 s of a Jie, a sixth on the first/last day of a month, a sixth in 1571..1583 so that limits end around October 1582), each through ChildLimit (direction, counts, end, 12 decade and 20 yearly fortunes) and through the three other shipped strategies' get_info. "
+                "Non-trivial: births on month ends or first days, limits that are zero or spill into another month",
+        "exhaustive": {"quick": False, "thorough": False},
+        "assumptions": ["Jie instants are those of the term objects (C06); the year/month/hour pillars of the birth are the implementation's (C08, C09)",
+                        "calendar addition is read as: shift the month keeping the day-of-month number (a number missing there spills forward), then add days, hours and minutes on the time line"],
+        "level_text": "TLC checks the seconds->counts conversion over a 32-day grid and the calendar addition from month-end births incl. October 1582 (MC_Fortune: counts recompose to the seconds, end never before birth and within about eleven years) and validates every ChildLimit of the real code: direction = Yang-year man / Yin-year woman, governing Jie by direction, counts, end instant through Civil.tla, decade fortunes (month pillar +-1 per decade, start ages 10 apart) and yearly fortunes (hour pillar +-age from the end year), and the three other strategies against their own unit tables",
+        "level_note": "trusted: Fortune.tla (unit tables from the property / the strategies' documentation), Civil.tla, Clock.tla, TLC, harness logging; sampled",
+        "technique": "TLA+ conversion/addition model checked with TLC + trace validation of seeded births through all four strategies",
+    },
     "C17": {
         "title": "daily and hourly almanac cycles obey their defining recurrences",
         "mc": {"quick": [{"module": "MC_Almanac", "cfg": "MC_Almanac.cfg", "workers": 4}]},
